@@ -97,3 +97,16 @@ Theorem C19_spelled_items_with_trailing_gap its tg :
   lex_all (spell_t its tg) = Some (place_t (spell_t its tg) 0 its (List.length tg)).
 Proof. exact (lex_spell_t its tg). Qed.
 Print Assumptions C19_spelled_items_with_trailing_gap.
+
+(* ---- tiling (Proofs/Tiling.v): in the domain of the round trip the tokens and the bytes between them
+   tile the source - gap, token, gap, token, ..., trailing gap; every gap is blank (inside code) or a
+   run of comments (in text mode) *)
+From TW Require Import Tiling.
+
+Theorem C19_tokens_tile_the_source its tg :
+  source_ok_t its tg = true ->
+  lex_all (spell_t its tg) = Some (place_t (spell_t its tg) 0 its (List.length tg)) /\
+  spell_t its tg = fold_right (fun it acc => igap it ++ isrc it ++ acc) tg its /\
+  Forall (fun it => gap_fine (igap it)) its /\ gap_fine tg.
+Proof. exact (tokens_tile_the_source its tg). Qed.
+Print Assumptions C19_tokens_tile_the_source.
